@@ -397,6 +397,7 @@ class HarnessResult:
         self.xq = []
         self.xseen = 0
         self.cancelled = False
+        self.hangs = []
         self.paths = 0
         self.ok = 0
         self.panics = []
@@ -464,13 +465,16 @@ def explore_harnesses(pool, names, max_paths, seed, time_budget=None):
                 hr.covers.update(r['covers'])
                 for role, inp in r['kf']:
                     hr.kf.setdefault(role, inp)
+                if r['outcome'] == 'hang':
+                    hr.hangs.append({'msg': r['msg'], 'inputs': r['inputs'], 'decisions': r['decisions']})
+                    continue
                 if r['outcome'] == 'panic':
                     hr.panics.append({'msg': r['msg'], 'inputs': r['inputs'], 'decisions': r['decisions']})
                 else:
                     hr.ok += 1
                 hr.witnesses.append((r['inputs'], r['obs'], r['checks'], r['outcome'], r['msg']))
             over = hr.paths >= max_paths or (time_budget and time.time() - t0 > time_budget) \
-                or len(hr.violations) + len(hr.panics) > 200 or len(hr.gaps) > 20
+                or len(hr.violations) + len(hr.panics) > 200 or len(hr.gaps) > 20 or len(hr.hangs) > 3
             if over:
                 if left:
                     hr.truncated = True
@@ -532,11 +536,11 @@ def parse_transcript(text):
     return out
 
 
-def native_run(binary, base, cases):
+def native_run(binary, base, cases, timeout=None):
     sp = os.path.join(base, 'script.txt')
     op = os.path.join(base, 'transcript.txt')
     write_script(sp, cases)
-    r = subprocess.run([binary, sp, op], stdout=subprocess.PIPE, stderr=subprocess.PIPE, text=True)
+    r = subprocess.run([binary, sp, op], stdout=subprocess.PIPE, stderr=subprocess.PIPE, text=True, timeout=timeout)
     if r.returncode != 0:
         raise RuntimeError('native replay crashed: ' + r.stderr[-2000:])
     return parse_transcript(open(op).read())
@@ -628,6 +632,18 @@ def run_one(pid, cfg, tier, seed, base, repo, mir, binary, listed, t_setup, kani
     divergences = []
     confirmed = []
     validated = 0
+    # paths over the interpreter's step cap: each is run natively on its own under a time limit; only a native run that
+    # does not finish either is reported (as a hang), a native run that finishes means the interpreter is just slow
+    for h, hr in res.items():
+        for k, v in enumerate(hr.hangs[:3]):
+            sp = os.path.join(base, f'hang-{k}.txt')
+            write_script(sp, [('h0', h, v['inputs'])])
+            try:
+                subprocess.run([binary, sp, sp + '.out'], stdout=subprocess.PIPE, stderr=subprocess.PIPE, timeout=20)
+                divergences.append((h, 'step cap exceeded symbolically (' + v['msg'] + ') but the native run finishes '
+                                    'within 20 s', v['inputs']))
+            except subprocess.TimeoutExpired:
+                confirmed.append((h, 'hang', v['inputs'], 'native run did not finish within 20 s; ' + v['msg']))
     for cid, (kind, h, x) in expect.items():
         t = tr.get(cid)
         if t is None:
@@ -786,7 +802,12 @@ def replay_file(path):
     base, repo = prepare_scratch('replay')
     try:
         binary, _ = build_native(base, repo)
-        tr = native_run(binary, base, [('r0', body['harness'], [tuple(x) for x in body['inputs']])])
+        try:
+            tr = native_run(binary, base, [('r0', body['harness'], [tuple(x) for x in body['inputs']])], timeout=30)
+        except subprocess.TimeoutExpired:
+            print('native run did not finish within 30 s')
+            print(f'VIOLATION property={body["property"]} replay={path}')
+            return 1
         t = tr['r0']
         print(json.dumps(t, indent=1))
         end = t['end'] or ''
